@@ -289,6 +289,27 @@ CHECKS = {
         'shelve backend only; reset/trace under their documented '
         'preconditions.',
     ),
+    'C16': (
+        'generators', 'exploration',
+        'Hypothesis-generated engine packages on disk (both factory styles, '
+        'all mixes of factory kinds) through the real compliant._scan / '
+        '_verify (command line sampled) and the real scan -> Construct -> '
+        'build -> periodics -> dispatch chain; single-rule violations from a '
+        'catalogue injected at generated positions, and exhaustively at '
+        'every position for small packages',
+        'Part accept: every generated rule-abiding package (packages '
+        'offering only regressions, only analyses, only tasks, any mix, with '
+        'and without events; references at three levels; feedback) must be '
+        'accepted, and then builds a task graph containing every declared '
+        'algorithm, schedules, registers its timer events and drains a full '
+        'run without an exception. Part reject: the same packages with one '
+        'violation of one rule (27 kinds x positions; bad references placed '
+        'before, after or instead of a valid one) must be rejected (False or '
+        'an exception, i.e. a non-zero exit). Part rejectall enumerates all '
+        'applicable violations of a generated small package (50-200 each).',
+        'base-class / factory-signature violations in the legacy style '
+        'only; CLI run for 1 accepted package in 40.',
+    ),
 }
 
 NOT_YET = 'check not built yet in this session (planned, see DESIGN.md section 4)'
